@@ -157,6 +157,10 @@ func (c *genCfg) inputs(emit func(string)) {
 			emit(s)
 		}
 	case "g3":
+		// the grammar lists themselves: the Lean specification (Spec/SqliGrammar.lean) must list the same grammar
+		for _, k := range []string{"sk", "pr", "tl", "sp"} {
+			emit(c03ListMagic + k)
+		}
 		oc := &oracleCfg{prop: "C03", tier: c.tier, seed: c.seed, scale: c.scale}
 		enumC03(oc, func(in, what string) { emit(in) })
 	case "g4":
@@ -230,7 +234,11 @@ func encodeScheme(rng *rand.Rand) string {
 func (c *genCfg) opsFor(s string, out []Op) []Op {
 	switch c.stream {
 	case "g3", "g14":
-		out = append(out, Op{Kind: "is", S: s})
+		if strings.HasPrefix(s, c03ListMagic) {
+			out = append(out, Op{Kind: "c03l", S: s[len(c03ListMagic):]})
+		} else {
+			out = append(out, Op{Kind: "is", S: s})
+		}
 	case "g4":
 		out = append(out, Op{Kind: "x", S: s})
 	case "g15":
